@@ -6,8 +6,10 @@ package document
 
 // New: a document made only of objects and containers allocated by the call.
 //@ func New
-//@ props C17
+//@ props C17, C10
 //@ modifies nothing
+//@ ensures fresh(result) && docParts(result) && result.nextImageID == 0
+//@ ensures mediaFresh(result)
 //@ ensures fresh(result) && result.Body != nil && fresh(result.Body) && len(result.Body.Elements) == 0 && freshArr(result.Body.Elements)
 //@ ensures result.parts != nil && fresh(result.parts) && result.styleManager != nil && fresh(result.styleManager)
 //@ ensures result.documentRelationships != nil && fresh(result.documentRelationships) && freshArr(result.documentRelationships.Relationships)
